@@ -155,11 +155,18 @@ class Recorder:
                    host=rec.names.nb(info.server) if info.server else 0, port=info.port or 0,
                    txt=rec.names.nb('txt:' + (info.text or b'').hex()), addrs=addrs)
 
+        ncb = {'n': 0}
+
         class BL(ServiceListener):
             def add_service(self, zc: Any, type_: str, name: str) -> None:
                 rec.ev('cb', bid=bid, kind='add', ty=rec.names.nb(type_), name=rec.names.nb(name))
                 if not rec.sc.get('no_lookup'):
                     rec.tasks.append(asyncio.ensure_future(lookup(type_, name)))
+                ncb['n'] += 1
+                if st.get('raise_at') == ncb['n'] and not ncb.get('starting'):
+                    # a faulty application: this one callback raises (once)
+                    rec.ev('uexc', bid=bid)
+                    raise simnet.HarnessFault('browser callback raises')
 
             def remove_service(self, zc: Any, type_: str, name: str) -> None:
                 rec.ev('cb', bid=bid, kind='rem', ty=rec.names.nb(type_), name=rec.names.nb(name))
@@ -167,7 +174,11 @@ class Recorder:
             def update_service(self, zc: Any, type_: str, name: str) -> None:
                 rec.ev('cb', bid=bid, kind='upd', ty=rec.names.nb(type_), name=rec.names.nb(name))
         self.ev('bstart', bid=bid, host=st['host'], types=[self.names.nb(t) for t in st['types']])
-        self.browsers[bid] = (AsyncServiceBrowser(h.zc, list(st['types']), listener=BL()), st['host'])
+        ncb['starting'] = 1          # (not while the browser is being constructed: the replay of the cache to a new listener)
+        try:
+            self.browsers[bid] = (AsyncServiceBrowser(h.zc, list(st['types']), listener=BL()), st['host'])
+        finally:
+            ncb['starting'] = 0
 
     async def main(self) -> None:
         net = self.net
@@ -195,6 +206,10 @@ class Recorder:
                 self.start_browser(st)
             elif op == 'check':
                 self.ev('check', kind=st['kind'])
+            elif op == 'inject':
+                # a querier on the link that is not a library instance (its questions arrive exactly when the scenario says)
+                qs = [(q[0], q[1], 1) for q in st['qs']]
+                self.hosts[st['host']].inject(wire.build(id_=0, flags=0, questions=qs), src=st.get('src', '10.0.0.99'))
             else:
                 raise ValueError(op)
             await asyncio.sleep(0)
@@ -216,6 +231,8 @@ class Recorder:
         evs = self.events
         last_t = evs[-1]['t'] if evs else 0
         for x in excs:
+            if x.get('cls') == 'HarnessFault':
+                continue             # the harness's own fault (logged as 'uexc')
             if x['t'] <= last_t:
                 evs.append({'ev': 'exc', 't': x['t'], 'what': str(x.get('cls')), 'msg': str(x.get('msg'))[:100]})
         evs.sort(key=lambda e: e['t'])
@@ -247,7 +264,10 @@ def gen_link(rng: random.Random, sid: str, thorough: bool = False) -> dict:
     nb = rng.choice([1, 1, 2, 3])
     for b in range(nb):
         t = rng.choice([0, 50, 400, 1000, 2500, 5000, 9000])
-        evs.append((t, k, {'op': 'bstart', 'bid': b + 1, 'host': rng.choice(hosts), 'types': rng.sample(types, rng.randint(1, len(types)))}))
+        bst = {'op': 'bstart', 'bid': b + 1, 'host': rng.choice(hosts), 'types': rng.sample(types, rng.randint(1, len(types)))}
+        if rng.random() < 0.3:
+            bst['raise_at'] = rng.choice([1, 1, 2, 3])
+        evs.append((t, k, bst))
         k += 1
     t_last = max(e[0] for e in evs)
     c1 = t_last + 16000
